@@ -1,7 +1,8 @@
 (** C08 for the option sets the drivers use (gen/Gen_ScanOpts.v is dumped from the tree under
     test on every run): the finite side condition and the specialised statements. *)
 From Coq Require Import List NArith ZArith Bool Lia.
-From Atlas Require Import Base.Bytes Lex.LexModel Lex.LexProofs gen.Gen_ScanOpts.
+From Atlas Require Import Base.Bytes Lex.LexModel Lex.LexProofs Lex.LexDirective gen.Gen_ScanOpts.
+From Atlas Require Lint.LintNolintModel.
 Import ListNotations.
 Open Scope Z_scope.
 
@@ -42,11 +43,98 @@ Proof.
   pose proof (proj1 (Forall_forall _ _) P1 _ Hin) as Ht. split; [exact Ht|apply Line_spec; exact Ht].
 Qed.
 
+(** every option set (round 5): totality needs no side condition at all. *)
+Lemma scan_total_all o inp : scan o inp <> OutOfFuel /\ scan o inp <> Panic.
+Proof. split; [apply Scan_terminates|apply Scan_no_panic]. Qed.
+
 Lemma scan_terminates o inp : supported o = true -> scan o inp <> OutOfFuel.
-Proof. intros Hs. apply supported_spec in Hs. apply Scan_terminates; auto. Qed.
+Proof. intros _. apply Scan_terminates. Qed.
 
 Lemma scan_total o inp : supported o = true -> scan o inp <> OutOfFuel /\ scan o inp <> Panic.
+Proof. intros _. apply scan_total_all. Qed.
+
+Lemma scan_losslessG o inp ss :
+  scan o inp = Ok ss ->
+  exists hdr d0 rest, inp = hdr ++ rest /\ Header inp hdr d0 /\ LosslessG o d0 (zlen hdr) rest ss.
+Proof. apply Scan_losslessG. Qed.
+
+Lemma scan_positionsG o inp ss :
+  scan o inp = Ok ss ->
+  Forall (fun st => exists sh, 0 <= sh /\ (GoCommand o = false -> sh = 0) /\ TextAtShift inp sh st /\
+                    Line inp (Pos st) = Ok (line_of inp (Pos st))) ss.
 Proof.
-  intros Hs. split; [apply scan_terminates; exact Hs|].
-  apply supported_spec in Hs. apply Scan_no_panic; auto.
+  intros H. destruct (scan_losslessG _ _ _ H) as (hdr & d0 & rest & -> & _ & HL).
+  pose proof (losslessG_positions _ _ _ _ _ HL hdr eq_refl) as HF.
+  eapply Forall_impl; [|exact HF]. intros st (sh & H1 & H2 & H3 & H4).
+  exists sh. repeat split; auto. apply Line_bounds. exact H4.
+Qed.
+
+(** every member of a statement's [Comments] is a terminated comment of the input (exactly which
+    ones: the [GapCs] premise of [LosslessG]). *)
+Lemma scan_comments o inp ss st c :
+  scan o inp = Ok ss -> In st ss -> In c (Comments st) -> InGap o inp c.
+Proof.
+  intros H Hst Hc. destruct (scan_losslessG _ _ _ H) as (hdr & d0 & rest & -> & _ & HL).
+  pose proof (losslessG_comments _ _ _ _ _ HL hdr) as HF.
+  pose proof (proj1 (Forall_forall _ _) HF _ Hst) as HF2.
+  exact (proj1 (Forall_forall _ _) HF2 _ Hc).
+Qed.
+
+Lemma scan_pos_bounds o inp ss st : scan o inp = Ok ss -> In st ss -> 0 <= Pos st <= zlen inp.
+Proof.
+  intros H Hst. destruct (scan_losslessG _ _ _ H) as (hdr & d0 & rest & -> & _ & HL).
+  pose proof (losslessG_positions _ _ _ _ _ HL hdr eq_refl) as HF.
+  destruct (proj1 (Forall_forall _ _) HF _ Hst) as (sh & _ & _ & _ & Hb). exact Hb.
+Qed.
+
+Lemma scan_line_cr o inp ss st : scan o inp = Ok ss -> In st ss ->
+  Line inp (Pos st) = Ok (count_nl (strip_cr (firstn (Z.to_nat (Pos st)) inp)) + 1).
+Proof. intros H Hst. apply Line_cr. eapply scan_pos_bounds; eauto. Qed.
+
+(** [Stmt.Directive(name)] returns exactly the directives of the statement's own comments: each
+    result comes from one member [c] of [Comments st] (a terminated comment of the input, which
+    ones: [GapCs]) through [comment_directive], in the order of the comments. *)
+Lemma scan_stmt_directive o inp ss st nm :
+  scan o inp = Ok ss -> In st ss ->
+  Stmt_Directive st nm = flat_map (LintNolintModel.comment_directive nm) (Comments st) /\
+  (forall d, In d (Stmt_Directive st nm) ->
+     exists c, In c (Comments st) /\ In d (LintNolintModel.comment_directive nm c) /\ InGap o inp c) /\
+  (Comments st = [] -> Stmt_Directive st nm = []).
+Proof.
+  intros H Hst. split; [reflexivity|]. split.
+  - intros d Hd. unfold Stmt_Directive, LintNolintModel.Stmt_Directive in Hd.
+    apply in_flat_map in Hd as (c & Hc & Hd). exists c. split; [exact Hc|]. split; [exact Hd|].
+    eapply scan_comments; eauto.
+  - intros E. unfold Stmt_Directive. rewrite E. reflexivity.
+Qed.
+
+Lemma scan_directives_spec o nm inp :
+  scan_directives o nm inp =
+    match scan o inp with
+    | Ok ss => Ok (map (fun st => (Pos st, Stmt_Directive st nm)) ss)
+    | Err e => Err e | Panic => Panic | OutOfFuel => OutOfFuel
+    end.
+Proof. reflexivity. Qed.
+
+(** the comment-group rule for a line comment (the form of the header directives): the group is
+    emptied exactly when the byte after the comment's own newline - white space skipped or not -
+    is another newline, i.e. an empty line follows. *)
+Lemma has_prefix_nlnl_nl x : has_prefix x NLNL = true -> has_prefix x NL = true.
+Proof.
+  destruct x as [|a [|b t]]; simpl; try discriminate; intros H; apply andb_true_iff in H as [H _];
+    rewrite H; reflexivity.
+Qed.
+
+Lemma line_comment_rule o body sp rest cs :
+  index_of (body ++ NL) NL = Some (length body) -> Spaces sp -> starts_space rest = false ->
+  SegC o (([45;45]%N ++ body ++ NL) ++ sp) rest cs
+       (if has_prefix (sp ++ rest) NL then [] else cs ++ [[45;45]%N ++ body ++ NL]).
+Proof.
+  intros Hi Hsp Hr.
+  pose proof (SC_comment o [45;45]%N body NL sp rest cs Hi (or_introl (conj eq_refl eq_refl)) Hsp Hr) as H.
+  assert (blank_after NL (sp ++ rest) = has_prefix (sp ++ rest) NL) as E.
+  { unfold blank_after. destruct (has_prefix (sp ++ rest) NLNL) eqn:E1.
+    - apply has_prefix_nlnl_nl in E1. rewrite E1. reflexivity.
+    - simpl. destruct (has_prefix (sp ++ rest) NL); reflexivity. }
+  rewrite E in H. exact H.
 Qed.
